@@ -39,6 +39,7 @@ package macat
 //@   before call:SendMsg#1 assert eqseq(msg.Body, a.sendData) && len(msg.Header) == 0
 //@   at call:SendMsg#1 set nsent = nsent + 1
 //@   before call:printMsg#1 assert arg0 == msg && isnil(err)
+//@   before call:SetOption#1 assert arg0 == mangos.OptionRecvDeadline && is_duration(arg1) && int_of(arg1) == a.sendInterval
 //@   before call:Free#1 assert called_since("call:RecvMsg#1", "printMsg")
 //@   before call:recvLoop#1 assert nsent == 1 && a.sendInterval < 0
 //@   loop 1 invariant a.sendInterval == old(a.sendInterval)
